@@ -276,6 +276,10 @@ class ScriptedPeer(PeerBase):
             else:
                 b[-1] ^= 0x55
             return self.send(s, bytes(b), args[0], n, 2, hops=(args[1] if len(args) > 1 else 0))
+        if name == "nowdup":            # valid answer now, an exact duplicate of it after a delay (arrives when the request is long over)
+            keep.append(v)
+            self.send(s, v, 0, n, 1)
+            return self.send(s, v, args[0], n, 2)
         if name == "nowfrag":           # valid answer now, then a lone first fragment of it after a delay (arrives while the socket is idle)
             keep.append(v)
             self.send(s, v, 0, n, 1)
